@@ -364,6 +364,10 @@ pub fn specials(thorough: bool) -> Vec<Special> {
     out.push(("limit.lookupswitch_huge", "npairs=0x7fffffff".into(), code_class(50, &switch_code(false, 0x7fff_ffff, 0, 1), |_| vec![])));
     out.push(("limit.lookupswitch_huge", "npairs=0x08000000".into(), code_class(50, &switch_code(false, 0x0800_0000, 0, 1), |_| vec![])));
     out.push(("limit.tableswitch_valid", "3 entries".into(), code_class(50, &switch_code(true, 5, 7, 3), |_| vec![])));
+    // consistent tables at the ends of the int range (javac writes `case Integer.MAX_VALUE`): the reader accepts them, so the writer must cope
+    for (low, high) in [(i32::MAX - 2, i32::MAX), (i32::MAX, i32::MAX), (i32::MIN, i32::MIN + 2), (i32::MIN, i32::MIN), (-1, 1), (i32::MAX - 1, i32::MAX)] {
+        out.push(("limit.tableswitch_valid_at_int_range_end", format!("low={low} high={high}"), code_class(50, &switch_code(true, low, high, (high as i64 - low as i64 + 1) as usize), |_| vec![])));
+    }
     // last instruction cut short: sipush / goto_w / wide iinc / invokeinterface as the last byte(s) of the code array
     for (name, tail) in [("sipush", vec![0x11u8]), ("sipush+1", vec![0x11, 0]), ("ldc", vec![0x12]), ("goto_w", vec![0xc8, 0, 0]), ("wide", vec![0xc4]), ("wide_iinc", vec![0xc4, 0x84, 0, 1]),
         ("invokeinterface", vec![0xb9, 0, 1]), ("multianewarray", vec![0xc5, 0]), ("tableswitch", vec![0xaa]), ("lookupswitch", vec![0xab, 0, 0, 0, 0, 0]), ("ifeq", vec![0x99, 0])] {
